@@ -79,18 +79,20 @@ Section MapLemmas.
 End MapLemmas.
 
 (* sets *)
-Lemma mem_app_single : forall l k x, mem (l ++ [x]) k = mem l k || N.eqb x k.
+Lemma mem_ins_set : forall l k x, mem (ins_set l x) k = mem l k || N.eqb x k.
 Proof.
   induction l as [|y r IH]; intros; cbn.
   - destruct (N.eqb x k); reflexivity.
-  - destruct (N.eqb y k); [reflexivity | apply IH].
+  - destruct (N.ltb x y); cbn.
+    + destruct (N.eqb x k), (N.eqb y k); cbn; auto using orb_comm. now rewrite orb_true_r. now rewrite orb_false_r.
+    + destruct (N.eqb y k); [reflexivity | apply IH].
 Qed.
 
 Lemma mem_add : forall l k x, mem (add l x) k = mem l k || N.eqb x k.
 Proof.
   intros. unfold add. destruct (mem l x) eqn:E.
   - destruct (N.eqb x k) eqn:E2; [apply N.eqb_eq in E2; subst; rewrite E; reflexivity | now rewrite orb_false_r].
-  - apply mem_app_single.
+  - apply mem_ins_set.
 Qed.
 
 Lemma add_mem_id : forall l k, mem l k = true -> add l k = l.
@@ -107,7 +109,9 @@ Proof.
   intros. unfold add. rewrite H.
   induction l as [|x r IH]; cbn in *.
   - now rewrite N.eqb_refl.
-  - destruct (N.eqb x k) eqn:E; [discriminate|]. f_equal. now apply IH.
+  - destruct (N.eqb x k) eqn:E; [discriminate|]. destruct (N.ltb k x); cbn.
+    + rewrite N.eqb_refl, E. f_equal. now apply rem_absent.
+    + rewrite E. f_equal. now apply IH.
 Qed.
 
 Lemma mem_rem : forall l k x, mem (rem l x) k = mem l k && negb (N.eqb x k).
@@ -137,3 +141,43 @@ Proof. intros. rewrite firstn_app, Nat.sub_diag, firstn_all. cbn. apply app_nil_
 
 Lemma journal_eta : forall E (j : journal E), mkJ (j_entries j) (j_dirties j) = j.
 Proof. now destruct j. Qed.
+
+(* strictly ascending lists: removing a member and adding it again is the identity *)
+Fixpoint asc (l : list N) : Prop :=
+  match l with [] => True | x :: r => (forall y, mem r y = true -> (x < y)%N) /\ asc r end.
+Fixpoint ascb (l : list N) : bool :=
+  match l with [] => true | x :: r => forallb (fun y => N.ltb x y) r && ascb r end.
+
+Lemma mem_In : forall l y, mem l y = true <-> In y l.
+Proof.
+  induction l as [|x r IH]; intros y; cbn; [split; [discriminate | tauto]|].
+  destruct (N.eqb x y) eqn:E.
+  - apply N.eqb_eq in E. subst. tauto.
+  - rewrite IH. apply N.eqb_neq in E. split; [tauto | intros [H|H]; [congruence | exact H]].
+Qed.
+Lemma ascb_asc : forall l, ascb l = true -> asc l.
+Proof.
+  induction l as [|x r IH]; intros H; cbn in *; [exact I|].
+  apply andb_true_iff in H. destruct H as [H1 H2]. split; [|auto].
+  intros y Hy. apply mem_In in Hy. rewrite forallb_forall in H1. specialize (H1 _ Hy). now apply N.ltb_lt.
+Qed.
+
+Lemma add_rem_asc : forall l k, asc l -> mem l k = true -> add (rem l k) k = l.
+Proof.
+  induction l as [|x r IH]; intros k Ha Hm; cbn in *; [discriminate|].
+  destruct Ha as [Hx Hr]. destruct (N.eqb x k) eqn:E.
+  - apply N.eqb_eq in E. subst x.
+    assert (Hnk : mem r k = false).
+    { destruct (mem r k) eqn:Em; [|reflexivity]. specialize (Hx _ Em). lia. }
+    rewrite (rem_absent _ _ Hnk). unfold add. rewrite Hnk.
+    destruct r as [|y r']; cbn; [reflexivity|].
+    assert (k < y)%N by (apply Hx; cbn; now rewrite N.eqb_refl).
+    apply N.ltb_lt in H. now rewrite H.
+  - unfold add. cbn. rewrite E.
+    assert (Hmr : mem (rem r k) k = false) by (rewrite mem_rem, N.eqb_refl; cbn; apply andb_false_r).
+    rewrite Hmr. cbn.
+    assert (x < k)%N by (apply Hx; exact Hm).
+    assert (N.ltb k x = false) by (apply N.ltb_ge; lia). rewrite H0. f_equal.
+    specialize (IH k Hr Hm). unfold add in IH. now rewrite Hmr in IH.
+Qed.
+
